@@ -90,6 +90,7 @@ type Exec struct {
 	closures  map[ssa.Value]*ssa.MakeClosure
 	panicked  []retInfo // explicit panics / exceptional exits (reach, heap)
 	skipSafety bool
+	skipAlloc  bool
 	witness    map[string]SV
 	defers     []deferred
 	strIters   []*ssa.Range
@@ -732,8 +733,9 @@ func (ex *Exec) instr(ins ssa.Instruction, b *ssa.BasicBlock, h *Heap, reach Ter
 		ln := ex.ival(x.Len)
 		cp := ex.ival(x.Cap)
 		ex.safety("safe.makeslice", reach, and(le(tInt(0), ln), le(ln, cp), le(cp, tIntS(maxAllocElems))), x, "make([]T, len, cap) with negative or out-of-range size (cap > 2^47 elements)")
-		base := ex.alloc(h, "slice")
 		et := x.Type().Underlying().(*types.Slice).Elem()
+		ex.allocGuard(reach, cp, et, x, "make")
+		base := ex.alloc(h, "slice")
 		key := ex.memKey(et)
 		m := q.heapGet(h, key)
 		zs := arrSort(sInt, so.sortOf(et))
@@ -1176,6 +1178,7 @@ func (ex *Exec) binop(x *ssa.BinOp, reach Term) Term {
 		case token.NEQ:
 			return not(q.strEq(a, b))
 		case token.ADD:
+			ex.allocGuard(reach, add(strLen(a), strLen(b)), types.Typ[types.Uint8], x, "string concatenation")
 			return ex.concat(a, b)
 		case token.LSS:
 			return app(sBool, "uf_strlt", a, b)
@@ -1704,4 +1707,50 @@ func (ex *Exec) copyObject(ref Term, t types.Type, src, dst *Heap) {
 		key := ex.regKey("C:"+s, arrSort(sInt, s))
 		q.heapSet(dst, key, store(q.heapGet(dst, key), ref, sel(q.heapGet(src, key), ref)))
 	}
+}
+
+// sizeOfType: bytes occupied by one value of type t (amd64).
+func sizeOfType(t types.Type) int64 {
+	switch u := t.Underlying().(type) {
+	case *types.Basic:
+		switch u.Kind() {
+		case types.Bool, types.Int8, types.Uint8:
+			return 1
+		case types.Int16, types.Uint16:
+			return 2
+		case types.Int32, types.Uint32, types.Float32:
+			return 4
+		case types.String:
+			return 16
+		}
+		return 8
+	case *types.Slice:
+		return 24
+	case *types.Interface:
+		return 16
+	case *types.Struct:
+		var n int64
+		for i := 0; i < u.NumFields(); i++ {
+			n += sizeOfType(u.Field(i).Type())
+		}
+		return n
+	case *types.Array:
+		return u.Len() * sizeOfType(u.Elem())
+	}
+	return 8
+}
+
+// allocGuard (property C09 only): an allocation whose element count is a program value must be small or within
+// the memory budget established by a passed guard (object.MustBeOk / SizeOk).
+func (ex *Exec) allocGuard(reach Term, count Term, elem types.Type, at ssa.Instruction, what string) {
+	if !hasProp(ex.q.props, "C09") || ex.skipAlloc {
+		return
+	}
+	if isAtom(count.S) && !strings.ContainsAny(count.S, "!_") {
+		return // literal size
+	}
+	ex.q.declFun("ghost_membudget", "() Int")
+	bytes := app(sInt, "*", count, tInt(sizeOfType(elem)))
+	goal := or(le(bytes, tInt(4096+64)), lt(bytes, add(Term{"ghost_membudget", sInt}, tInt(64))))
+	ex.q.oblige(ex.obName("guard.alloc"), "guard.alloc", reach, goal, ex.pos(at), what+": allocation size is a program value and must be covered by the memory guard (<= 4 KiB or < budget)")
 }
